@@ -246,6 +246,44 @@ def _parse_tuple(fn):
     return True
 
 
+_MUTATORS = {"append", "extend", "insert", "pop", "remove", "sort", "reverse", "clear", "update", "setdefault", "popitem",
+             "add", "discard", "appendleft", "popleft", "rotate", "__setitem__", "__delitem__", "__setattr__"}
+
+
+def _base_name(node):
+    while isinstance(node, (ast.Attribute, ast.Subscript)):
+        node = node.value
+    return node.id if isinstance(node, ast.Name) else None
+
+
+def _stateless_converters(mod):
+    """The history model lets ONE converter keep state between calls (parse_tuple's counter, a fact of its own).  Every other
+    closure that field_parsing.py hands to argparse as `type=` must be a function of its argument: no nonlocal/global, no
+    store into - and no mutating method call on - anything that is not a local of the closure itself (a closed-over list
+    that is re-ordered on success, a memo dict, an attribute of the enclosing function, ...).  Seeded change C08-07."""
+    for f in mod.body:
+        if not isinstance(f, ast.FunctionDef) or f.name == "parse_tuple":
+            continue
+        for g in ast.walk(f):
+            if g is f or not isinstance(g, (ast.FunctionDef, ast.Lambda)):
+                continue
+            gname = getattr(g, "name", "<lambda>")
+            a = g.args
+            own = {x.arg for x in a.posonlyargs + a.args + a.kwonlyargs} | {x.arg for x in (a.vararg, a.kwarg) if x}
+            nodes = list(ast.walk(g))
+            own |= {n.id for n in nodes if isinstance(n, ast.Name) and isinstance(n.ctx, ast.Store)}
+            for n in nodes:
+                if isinstance(n, (ast.Nonlocal, ast.Global)):
+                    raise Unrecognised(f"{f.name}.{gname}: converter keeps state ({unparse(n)})")
+                if isinstance(n, (ast.Attribute, ast.Subscript)) and isinstance(n.ctx, (ast.Store, ast.Del)) \
+                        and _base_name(n) not in own:
+                    raise Unrecognised(f"{f.name}.{gname}: converter writes to a non-local object ({unparse(n)})")
+                if isinstance(n, ast.Call) and isinstance(n.func, ast.Attribute) and n.func.attr in _MUTATORS \
+                        and _base_name(n.func.value) not in own:
+                    raise Unrecognised(f"{f.name}.{gname}: converter mutates a closed-over object ({unparse(n)})")
+    return True
+
+
 def _parse_enum(fn):
     """What is the module-level registry `_parsing_fns` indexed by in parse_enum: the Enum class object (True) or its
     "<module>.<qualname>" string (False)?  Anything else is unrecognised."""
@@ -302,6 +340,7 @@ def emit(repo: str) -> str:
     fp = parse(repo, "simple_parsing/wrappers/field_parsing.py")
     counter = _parse_tuple(find_def(fp, "parse_tuple"))
     by_class = _parse_enum(find_def(fp, "parse_enum"))
+    stateless = _stateless_converters(fp)
     return (
         "From SPV Require Import Base.Str Model.History.\nOpen Scope string_scope.\n"
         "(* does _preprocessing re-assert the parser's own three settings on FieldWrapper before option strings are generated *)\n"
@@ -327,6 +366,8 @@ def emit(repo: str) -> str:
         "Definition facts_gen : facts :=\n"
         "  mkfacts reasserts_gen reassert_first_gen defaults_own_mode_gen cfgarg_every_parse_gen setup_cached_gen tuple_counter_persists_gen defaults_persist_gen\n"
         "          done_after_work_gen cfgarg_refreshed_gen reg_by_class_gen.\n"
+        "(* guard: apart from the tuple converter above, no closure of field_parsing.py keeps or mutates state between calls *)\n"
+        f"Definition converters_stateless_gen : bool := {_b(stateless)}.\n"
         "Definition step_gen := step facts_gen.\n"
         "Definition fresh_gen := fresh facts_gen.\n"
         "Definition benign_gen := benign facts_gen.\n"
